@@ -1184,6 +1184,13 @@ class Executor(object):
                 raise Unsupported("attribute store on %r" % (o,))
 
             return self.bind(self.eval(tgt.value, st, fr), fn)
+        if isinstance(tgt, ast.Subscript) and isinstance(tgt.slice, ast.Slice):
+            if tgt.slice.lower is not None or tgt.slice.upper is not None or tgt.slice.step is not None:
+                raise Unsupported("partial slice assignment")
+            hook = getattr(self.models, "slice_assign", None)
+            if hook is None:
+                raise Unsupported("slice assignment")
+            return self.bind(self.eval(tgt.value, st, fr), lambda s, o: hook(self, s, o, v))
         if isinstance(tgt, ast.Subscript):
             def fn(s, o):
                 return self.bind(self.eval(tgt.slice, s, fr), lambda s2, k: self.store_item(o, k, v, s2, fr))
